@@ -179,7 +179,11 @@ class ScriptEnv(gym.Env):
     # -- tags
     def _obs(self):
         if self.discrete_obs:
-            return int((self.ep * 5 + self.t) % self.discrete_obs)
+            # few states, and odd episodes advance two states per step: the same (state, action) pair is seen with
+            # different successors (stochastic-looking transitions for model-based tabular learners), consecutive
+            # observations always differ and a reset observation differs from the previous final one (lengths < 5)
+            k = min(self.discrete_obs, 8)
+            return int((self.ep * 5 + self.t * (1 + self.ep % 2)) % k)
         o = np.zeros(self.obs_dim, dtype=np.float32)
         o[0], o[1] = self.ep, self.t
         if self.obs_dim > 2:
